@@ -19,6 +19,7 @@ import (
 	"filippo.io/age/xverif/props/c16"
 	"filippo.io/age/xverif/props/c17"
 	"filippo.io/age/xverif/props/c18"
+	"filippo.io/age/xverif/props/c19"
 )
 
 var checks = map[string]func(tier string){
@@ -38,6 +39,7 @@ var checks = map[string]func(tier string){
 	"C16": c16.Run,
 	"C17": c17.Run,
 	"C18": c18.Run,
+	"C19": c19.Run,
 }
 
 func main() {
